@@ -44,7 +44,7 @@ _NT = {'meta:lexicon', 'meta:entry', 'meta:sense', 'meta:synset', 'meta:count', 
 @st.composite
 def _cases(draw, force_extension=False):
     if force_extension:
-        prof = gen.DEFAULT
+        prof = gen.FRAMES_PLUS
         v = draw(st.sampled_from(['1.1', '1.2', '1.3']))
         b = gen._B(draw, prof, v)
         base = gen.draw_lexicon(b, 'la', draw(st.sampled_from(gen.LEX_VERSIONS)),
@@ -55,7 +55,7 @@ def _cases(draw, force_extension=False):
             lexs.append(gen.draw_extension(b, 'lc', '1', lexs[draw(st.integers(0, 1))]))
         res = {'lmf_version': v, 'lexicons': lexs}
     else:
-        res = draw(gen.resources(max_lexicons=3))
+        res = draw(gen.resources(gen.FRAMES_PLUS, max_lexicons=3))
     return {'resource': res, 'style': draw(xmlw.styles())}
 
 
